@@ -405,6 +405,11 @@ class Ctx(object):
                 continue
             if st == 'SUCCESS':
                 continue
+            if st != 'FAILURE':
+                # ERROR / UNKNOWN: the solver gave up (memory limit, abort); never a verdict
+                r.status = 'inconclusive'
+                r.detail = 'cbmc reports status %s for %s (solver out of memory or aborted)' % (st, pid)
+                return
             if '.no-body.' in pid:
                 r.status = 'broken'
                 r.detail = 'harness incomplete: %s' % desc
